@@ -11,5 +11,6 @@ ASSUMPTIONS = [
 ]
 RULE = c05.RULE
 
-PREDS = ("c06_backoff_ok", "c06_cap_ok", "c06_emitted_live_ok", "c06_fast_retx_ok", "c06_stable_plen_ok", "c06_joint_ok")
+PREDS = ("c06_backoff_ok", "c06_cap_ok", "c06_emitted_live_ok", "c06_no_resend_acked", "c06_fast_retx_ok", "c06_stable_plen_ok",
+         "c06_joint_ok")
 COMPONENTS = [dict(c05.component("+".join(PREDS)), name="vsock_c06")]
